@@ -9,7 +9,9 @@ LEAN_MODULES = ["CatiiProps.C19"]
 USES_TRANSLATOR = True
 RULE = ("grid = {±2^k, ±2^k±1 : k in 0..64} ∪ every integer constant in fit_dtype's source (±1), both arguments "
         "crossed; a point is non-trivial when it lies in the property's domain (-2^63 <= min <= 0, min <= max < 2^64, "
-        "negative min => max < 2^63); distinct = distinct (max, min) pairs")
+        "negative min => max < 2^63); distinct = distinct (max, min) pairs; plus the three call sites named by the property: "
+        "INDX coordinate word size for boundary coordinates in any key/axis or in the common value (must be the narrowest "
+        "sufficient width), default dtype of to_array for boundary and negative values, collapsed with boundary precedence values")
 TRUSTED = ["translator output Gen/FitDtype.lean is cross-checked against the real fit_dtype on the whole grid"]
 ASSUMPTIONS = ["numpy.dtype(<inttype>) denotes the usual two's-complement range of that width"]
 
@@ -73,6 +75,98 @@ def points(ctx):
     return xs
 
 
+def narrowest(mx, mn):
+    signed = mn < 0
+    for name in (["int8", "int16", "int32", "int64"] if signed else ["uint8", "uint16", "uint32", "uint64"]):
+        lo, hi = RANGES[name]
+        if lo <= mn and mx <= hi:
+            return name
+    return None
+
+
+def call_sites(ctx):
+    """the three call sites named by the property hand fit_dtype the right extremes: the INDX coordinate word, the
+    default dtype of dense output, the output of collapsed"""
+    import numpy as np
+    import indx_common as X
+    import gen_cube as G
+    from catii import iindex
+    B = [0, 1, 2, 127, 128, 255, 256, 257, 32767, 32768, 65535, 65536, 2**31 - 1, 2**31, 2**32 - 1, 2**32, 2**40]
+    for _ in range(ctx.n(120)):
+        # (a) INDX: boundary coordinates in ANY key and ANY axis, or only in the common value
+        nax = ctx.rng.choice([1, 2, 2, 3])
+        nkeys = ctx.rng.randrange(0, 5)
+        keys = set()
+        for _k in range(nkeys):
+            keys.add(tuple(ctx.rng.choice(B + [3, 4, 5]) if ctx.rng.random() < 0.4 else ctx.rng.randrange(0, 6) for _a in range(nax)))
+        common = ctx.rng.choice(B)
+        entries = {k: np.array(sorted(ctx.rng.sample(range(50), ctx.rng.randrange(1, 4))), dtype=np.uint32) for k in sorted(keys)}
+        if ctx.rng.random() < 0.5:       # dictionary order is not sorted order
+            items = list(entries.items())
+            ctx.rng.shuffle(items)
+            entries = dict(items)
+        desc = {"site": "indx", "keys": [list(k) for k in entries], "common": common}
+        ctx.case(desc, nontrivial=bool(entries))
+        ctx.hit("site:indx")
+        st, b = X.impl_save([[list(k), v.tolist()] for k, v in entries.items()], common)
+        if st != "ok":
+            ctx.oracle_fail("IndxIO.save raised %s for in-range coordinates" % b, desc, cls="C19-site-indx")
+            continue
+        try:
+            _, _, wi, _ = X.spec_decode(b)
+        except Exception as e:
+            ctx.oracle_fail("the saved file does not parse (%s)" % e, desc, cls="C19-site-indx")
+            continue
+        mx = max([c for k in entries for c in k] + [common])
+        want = BITS[narrowest(mx, 0)] // 8
+        if wi != want:
+            ctx.oracle_fail("INDX coordinate word is %d bytes but the largest coordinate / common value %d needs %s %d" % (
+                wi, mx, "at least" if wi < want else "only", want), desc, cls="C19-site-indx")
+    for _ in range(ctx.n(120)):
+        # (b) dense output: default dtype of to_array for boundary values (negatives included), common only / entries only
+        N = ctx.rng.randrange(1, 6)
+        vals = [ctx.rng.choice(B + [-1, -128, -129, -32768, -32769, -2**31, -2**31 - 1]) for _v in range(ctx.rng.randrange(1, 4))]
+        vals = [v for v in vals if abs(v) < 2**62]
+        a = np.array([ctx.rng.choice(vals) for _r in range(N)], dtype=np.int64)
+        common = ctx.rng.choice(vals + [ctx.rng.choice(B[:14])])
+        ix = G.make_index(a, common)
+        desc = {"site": "to_array", "values": a.tolist(), "common": int(common)}
+        ctx.case(desc)
+        ctx.hit("site:to_array")
+        try:
+            out = ix.to_array()
+        except Exception as e:
+            ctx.oracle_fail("to_array() raised %s: %s" % (type(e).__name__, str(e)[:60]), desc, cls="C19-site-to_array")
+            continue
+        listed = [int(k[0]) for k in ix] + [int(ix.common)]
+        want = narrowest(max(listed), min(min(listed), 0))
+        if out.dtype.name != want:
+            ctx.oracle_fail("to_array() chose %s for values in [%d, %d]; the narrowest sufficient type of that signedness is %s" % (
+                out.dtype.name, min(listed), max(listed), want), desc, cls="C19-site-to_array")
+        elif not np.array_equal(out.astype(object), a.astype(object)):
+            ctx.oracle_fail("to_array() wrapped a value", desc, cls="C19-site-to_array")
+    for _ in range(ctx.n(60)):
+        # (c) collapsed: precedence values at the boundaries must come back unchanged
+        N, C = ctx.rng.randrange(1, 5), ctx.rng.randrange(1, 4)
+        vals = sorted(set(ctx.rng.choice([0, 1, 127, 128, 255, 256, 32767, 32768, 65535, 65536, -1, -128, -129, -32768, -32769]) for _v in range(3)))
+        a = np.array([[ctx.rng.choice(vals) for _c in range(C)] for _r in range(N)], dtype=np.int64)
+        prec = list(vals)
+        ctx.rng.shuffle(prec)
+        ix = G.make_index(a, ctx.rng.choice(vals))
+        desc = {"site": "collapsed", "values": a.tolist(), "precedence": prec, "common": int(ix.common)}
+        ctx.case(desc)
+        ctx.hit("site:collapsed")
+        try:
+            got = ix.collapsed(list(prec)).to_array(dtype=np.int64)
+        except Exception as e:
+            ctx.oracle_fail("collapsed raised %s: %s" % (type(e).__name__, str(e)[:60]), desc, cls="C19-site-collapsed")
+            continue
+        want = np.array([next(p for p in prec if p in set(row.tolist())) for row in a], dtype=np.int64)
+        if not np.array_equal(got, want):
+            ctx.oracle_fail("collapsed gives %s, expected %s (a boundary value wrapped?)" % (got.tolist(), want.tolist()), desc,
+                            cls="C19-site-collapsed")
+
+
 def run(ctx):
     catii = core.load_catii()
     from catii.iindexes import fit_dtype
@@ -111,6 +205,7 @@ def run(ctx):
         if why:
             ctx.oracle_fail(why + " (one-argument form)", {"max": mx, "impl": name}, cls="C19-wrong-dtype")
     ctx.exhaustive.append("all %d x %d grid points (powers of two ±1 and source constants ±1)" % (len(maxs), len(mins)))
+    call_sites(ctx)
     if ctx.oracle_only:
         return
     ans = ctx.model.run(reqs)
